@@ -61,13 +61,14 @@ func (conn *Conn) close() {
 	/* drop the connection's reference to all remaining fids: FidDestroy is
 	   called for each, now or when the last request still using it is done */
 	conn.Lock()
+	conn.closed = true
 	fids := make([]*SrvFid, 0, len(conn.fidpool))
 	for _, fid := range conn.fidpool {
 		fids = append(fids, fid)
 	}
 	conn.Unlock()
 	for _, fid := range fids {
-		fid.DecRef()
+		fid.unlink()
 	}
 }
 
